@@ -9,6 +9,7 @@
 -/
 import SV.Proofs.C20
 import SV.Proofs.C20Scalars
+import SV.Proofs.C20Derive
 
 namespace SV.Props.C20
 open SV.Model.C20 SV.Spec.C20 SV.Proofs.C20
@@ -422,5 +423,38 @@ example : registerAll [("Date".toList, 1)]
 /-- a generated document is sent as the JSON object `{"query": <document>}` and nothing else -/
 theorem prepareBody_text (doc : Name) :
     prepareBody (.text doc) = .json (.obj [("query", .str (String.ofList doc))]) := rfl
+
+
+/-! ### schemas derived from one another -/
+
+section Derivations
+open SV.Model.C20Derive SV.Proofs.C20Derive
+
+/-- **A filtered schema is a value.**  Whatever schemas are derived afterwards — from it, from its children, from its
+    siblings, in any order and number — the filters of a schema that already exists (its include and its exclude set) stay
+    what they were: `clone` copies both sets, so a derivation writes to cells that did not exist before. -/
+theorem derived_schemas_do_not_change_existing_ones (h : Heap) (fs : FS) (ds : List Derive)
+    (hi : fs.inc < h.length) (he : fs.exc < h.length) :
+    view (deriveAll .copyBoth h ds) fs = view h fs := by
+  unfold view
+  rw [deriveAll_copy_frame ds h fs.inc hi, deriveAll_copy_frame ds h fs.exc he]
+
+/-- the child has its parent's filters plus the new one (include case) -/
+theorem derived_schema_has_parents_filters_plus_one (h : Heap) (p : FS) (f : Nat)
+    (hi : p.inc < h.length) (he : p.exc < h.length) :
+    let r := derive .copyBoth h ⟨p, true, f⟩
+    view r.1 r.2 = ((view h p).1 ++ [f], (view h p).2) := by
+  simp only [derive, clone, addTo, view, readCell]
+  simp [List.getElem?_append_left hi, List.getElem?_append_left he, List.getElem?_set_self, List.getElem?_set_ne]
+
+/-- with a `clone` that shares the include set the parent changes under its child's hands: root with include filter 1,
+    `q = root.include(2)`: the root now also carries 2 -/
+theorem shared_include_set_changes_the_parent :
+    let h : Heap := [[1], []]
+    let root : FS := ⟨0, 1⟩
+    view (deriveAll .shareIncludes h [⟨root, true, 2⟩]) root = ([1, 2], []) ∧
+    view (deriveAll .copyBoth h [⟨root, true, 2⟩]) root = ([1], []) := by decide
+
+end Derivations
 
 end SV.Props.C20
